@@ -257,7 +257,7 @@ def metamorphic(ck, H, summ, rng, n):
                 sec, statekey, amtkey, owners = row[:4]
                 if (sec, amtkey) not in inputs:
                     continue
-                owner = owners[(k + len(sec)) % len(owners)]
+                owner = owners[(k // 3 + k + len(sec)) % len(owners)]   # k % 3 is the tax year: k alone would tie each year to one owner
                 v0 = dict(inputs)
                 if len(row) > 4:
                     v0[(sec, row[4])] = 'VA'
